@@ -37,8 +37,10 @@ pub struct OpenEventIndex {
 
 impl OpenEventIndex {
     pub fn create(id: BucketSegmentId, path: impl AsRef<Path>) -> Result<Self, EventIndexError> {
+        // The file is read through this handle (and its clones) once the index has been
+        // closed and flushed, so it must be readable as well.
         let file = OpenOptions::new()
-            .read(false)
+            .read(true)
             .write(true)
             .create_new(true)
             .open(path)?;
